@@ -172,6 +172,37 @@ static void op_append(int infl, int q, int viareserve)
 void h_write(void) { ALLSHAPES(op_append, 0) }
 void h_reserve(void) { ALLSHAPES(op_append, 1) }
 
+/* ---- C14: the same append steps with a failing allocator (--malloc-may-fail): the transport never refuses here, so the
+ * only source of failure is an allocation inside netbuf_write_reserve ---- */
+static void op_allocfail(int infl, int q, int viareserve)
+{
+	struct netbuf_write * W = mk(infl, q);
+	size_t tot0 = 0; for (int i = 0; i < NB; i++) tot0 += DL[i];
+	size_t g = nd_size(); ASSUME(g < 65536); uint8_t v0 = 0, v1 = 0; int have0 = pend_at(W, g, &v0);
+	uint8_t * data = malloc(WL ? WL : 1); ASSUME(data != NULL);
+	vh_di = 0; nw_refuse = 0;
+	int failed0 = W->failed, rc = 0, refused = 0;
+	if (!viareserve) { rc = netbuf_write_write(W, data, WL); refused = (rc != 0); }
+	else {
+		uint8_t * p = netbuf_write_reserve(W, WL);
+		if (p == NULL) refused = 1;
+		else rc = netbuf_write_consume(W, CL);
+	}
+	CHECK(rc == 0 || rc == -1, "documented return values");
+	if (refused) {
+		if (!viareserve) CHECK(!failed0, "netbuf_write_write on a writer that already failed discards silently and allocates nothing");
+		CHECK(pend_len(W) == tot0 && nw_calls == 0 && f_calls == 0, "allocation failure: reported, nothing queued, nothing sent, no callback");
+		if (have0) CHECK(pend_at(W, g, &v1) && v1 == v0, "pending bytes untouched");
+		CHECK(W->curr == (infl ? B[0] : NULL), "in-flight request untouched");
+	} else CHECK(rc == 0, "with memory available the step succeeds (the transport accepts every request here)");
+	CHECK(!nw_zero, "network_write never asked to write 0 bytes");
+	netbuf_write_free(W); free(data);	/* --memory-leak-check: nothing is left behind on either outcome */
+	REACHED();
+}
+void h_allocfail_write(void) { ALLSHAPES(op_allocfail, 0) }
+void h_allocfail_reserve(void) { ALLSHAPES(op_allocfail, 1) }
+
+
 /* ---- completion ---- */
 static void op_complete(int infl, int q, int dummy)
 {
